@@ -50,6 +50,9 @@ func (p *c13prop) Plan(tier string, seed int64) []core.Segment {
 			segs = append(segs, core.Segment{Kind: "margin:" + t, N: 1500 * m})
 		}
 		segs = append(segs, core.Segment{Kind: "wrapreset:" + t, N: 600 * m})
+		if t != "GSAP" && t != "OSAP" {
+			segs = append(segs, core.Segment{Kind: "ntlreset:" + t, N: 1500 * m})
+		}
 	}
 	reps := int64(1)
 	if tier == "thorough" {
@@ -156,6 +159,48 @@ func (p *c13prop) Gen(kind string, idx int64, seed int64, tier string) core.Case
 		}
 		if class == "reset" {
 			cc.H1 = GenOps(r, 10+r.Intn(60), w)
+		}
+		if class == "ntlreset" {
+			// the last Parse of the previous life uses NoTrailingLiterals:
+			// the parser has hashed positions behind the parse position it
+			// reports; hash inputs longer than three bytes on a two-letter
+			// alphabet so that entries of the old data verify partly against
+			// the new data
+			switch typ {
+			case "HP", "BHP", "BUP":
+				c.InputLen = 4 + r.Intn(5)
+				c.HashBits = 6 + r.Intn(8)
+			default:
+				c.InputLen1 = 3 + r.Intn(3)
+				c.InputLen2 = c.InputLen1 + 1 + r.Intn(8-c.InputLen1)
+				c.HashBits1, c.HashBits2 = 6+r.Intn(8), 6+r.Intn(8)
+			}
+			if c.BufferSize < 64 {
+				c.BufferSize = 64 + r.Intn(200)
+				c.ShrinkSize = r.Intn(c.BufferSize)
+			}
+			c.BlockSize = 8 + r.Intn(60)
+			if c.WindowSize < 16 {
+				c.WindowSize = 16 + r.Intn(200)
+			}
+			cc.Cfg = c
+			cc.S1 = gen.Family(r, []string{"rand2", "rand2", "rand3", "lzsynth"}[r.Intn(4)], 400, c.Hint())
+			cc.S2 = gen.Family(r, []string{"rand2", "rand2", "rand3"}[r.Intn(3)], 400, c.Hint())
+			cc.H1 = nil
+			for i, n := 0, r.Intn(3); i < n; i++ {
+				cc.H1 = append(cc.H1, POp{K: "write", B: 1 + r.Intn(c.BlockSize)}, POp{K: "parse"})
+			}
+			cc.H1 = append(cc.H1, POp{K: "write", B: 4 + r.Intn(2*c.BlockSize)}, POp{K: "parse", A: 1})
+			reset := POp{K: "reset", A: 0}
+			if r.Intn(2) == 0 {
+				reset = POp{K: "reset", A: 1 + r.Intn(2), B: r.Intn(60), C: r.Intn(20)}
+			}
+			cc.H2 = []POp{reset, {K: "write", B: 20 + r.Intn(100)}}
+			for i := 0; i < 8; i++ {
+				cc.H2 = append(cc.H2, POp{K: "parse", A: r.Intn(2)})
+			}
+			cc.H2 = append(cc.H2, POp{K: "write", B: 20 + r.Intn(100)}, POp{K: "parse"}, POp{K: "parse"}, POp{K: "parse"})
+			return core.MkCase(p.id, kind, idx, seed, tier, cc)
 		}
 		if class == "wrapreset" {
 			// a WrappedParser that served a first stream (left after some
@@ -517,7 +562,7 @@ func (p *c13prop) Run(c *core.Case, st *core.Stats) []core.Violation {
 	}
 	main := &PCase{Cfg: cc.Cfg, Stream: cc.S2, Ops: cc.H2}
 	var pre *PCase
-	if class == "reset" || class == "zerostart" || class == "margin" {
+	if class == "reset" || class == "zerostart" || class == "margin" || class == "ntlreset" {
 		pre = &PCase{Cfg: cc.Cfg, Stream: cc.S1, Ops: cc.H1}
 	}
 	// run A hands slices to Reset whose spare capacity holds garbage, run B
